@@ -289,7 +289,7 @@ func (h *History) CheckC12(res *Result) []Violation {
 			break
 		}
 	}
-	if endedBefore && !strings.HasPrefix(term.Info, "Degraded") {
+	if endedBefore && !(strings.HasPrefix(term.Info, "Degraded") && strings.Contains(term.Pos, "force stop")) {
 		out = append(out, Violation{Prop: "C12", Key: "C12/force-stop-lost/" + eng + "/run-already-ended", Index: termIdx,
 			Detail: fmt.Sprintf("a force stop accepted while the run's cleanup was already writing its follow-up status is lost: next status %q", term.Info)})
 		return out
